@@ -11,6 +11,7 @@
  * ops and by the begin/end records the LPC side writes) compared with the driver structures and with the answers of
  * find_object/environment/all_inventory/deep_inventory/first+next_inventory/objects()/livings()/find_living()/present(). */
 #include "hx.h"
+#include "hash.h"
 
 extern void vw_call_heart_beat (void);
 extern int vw_num_hb_objs (void);
@@ -25,7 +26,7 @@ static const char *obj_file[2] = { "/c08/a", "/c08/b" };
 typedef struct {
   int st;                       /* 0 not loaded, 1 live, 2 destructed (waiting in obj_list_destruct), 3 destructed and cleaned up */
   int parent;                   /* -1 none */
-  int living, lname;            /* lname: 0 none, 1 "p", 2 "q" */
+  int living, lname;            /* lname: 0 none, 1 / 2 = first / second living name */
   int hb, co;
   int seq;                      /* order of entering the current environment: the newest is the head of the inventory */
 } mobj;
@@ -35,6 +36,7 @@ static object_t *LOGGER;
 static int nclone, pending_destructed, base_objs, depth, selftest, ohash;
 static int choices_on, scripts_run, fails_run, hook_calls;
 static int ticks_done, maxticks, seqno;
+static char lname1[16] = "p", lname2[16] = "q";     /* two living names that collide in the living hash */
 
 enum { C_HIST, C_STEPS, C_HOOKS, C_SCRIPTS, C_MOVES, C_DESTRUCTS, C_ERRORS, C_SILENT_DESTRUCTS, C_COMMANDS, C_VERBS, C_REENTRANT_LOADS, C_WALKS };
 
@@ -133,7 +135,7 @@ static void model_destructed (int x) {
 static void settle (void) {
   while (nFR > 0 && FR[nFR - 1].type == FR_DEST && !has_children (FR[nFR - 1].ob)) {
     int x = FR[nFR - 1].ob;
-    if (FR[nFR - 1].ok && live (x)) { model_destructed (x); vx_count (C_DESTRUCTS, 1); if (FR[nFR - 1].implicit) vx_count (C_SILENT_DESTRUCTS, 1); }
+    if (FR[nFR - 1].ok && live (x) && !(selftest == 2 && x == 1)) { model_destructed (x); vx_count (C_DESTRUCTS, 1); if (FR[nFR - 1].implicit) vx_count (C_SILENT_DESTRUCTS, 1); }
     nFR--;
   }
 }
@@ -167,13 +169,13 @@ static void process_log (int op_failed) {
       int a = (int) num (e, 2), b = (int) num (e, 3);
       int ok = live (a) && live (b) && !in_subtree (b, a);
       vx_obs ("  move O%d -> O%d (by O%d)%s", a, b, id, ok ? "" : " [must fail]");
-      if (ok) { M[a].parent = b; M[a].seq = ++seqno; vx_count (C_MOVES, 1); }
+      if (ok && !(selftest == 1 && a == 2)) { M[a].parent = b; M[a].seq = ++seqno; vx_count (C_MOVES, 1); }   /* self-test 1: the model loses the moves of O2 */
       push_frame (FR_MOVE, a, ok, 0);
       if (!live (a) || !live (b)) fail_hist ("C08:destructed-object-handed-out", "LPC got hold of O%d/O%d for a move although one of them is destructed or not loaded", a, b);
     } else if (str_eq (w, "move-end")) {
       int a = (int) num (e, 2), b = (int) num (e, 3);
       while (nFR > 0 && !(FR[nFR - 1].type == FR_MOVE && FR[nFR - 1].ob == a)) nFR--;      /* inner frames closed by completion */
-      if (nFR > 0) { if (!FR[nFR - 1].ok && !(selftest == 1)) fail_hist ("C08:illegal-move-succeeded", "move_object(O%d -> O%d) returned normally although O%d is O%d itself or inside it", a, b, b, a); nFR--; }
+      if (nFR > 0) { if (!FR[nFR - 1].ok) fail_hist ("C08:illegal-move-succeeded", "move_object(O%d -> O%d) returned normally although O%d is O%d itself or inside it", a, b, b, a); nFR--; }
       settle ();
     } else if (str_eq (w, "dest-begin")) {
       int a = (int) num (e, 2);
@@ -220,7 +222,7 @@ static void process_log (int op_failed) {
       vx_obs ("  %s in O%d", w->u.string, id);
       if (!live (id)) fail_hist ("C08:model-desync", "%s record from O%d which the model has as not live (%d)", w->u.string, id, M[id].st);
       if (w->u.string[0] == 'c' && live (id)) M[id].co = 0;
-    } else if (str_eq (w, "living")) { if (live (id)) { M[id].living = 1; M[id].lname = str_eq (&e->item[2], "p") ? 1 : 2; } vx_obs ("  O%d becomes living \"%s\"", id, e->item[2].u.string); }
+    } else if (str_eq (w, "living")) { if (live (id)) { M[id].living = 1; M[id].lname = (id & 1) ? 2 : 1; } vx_obs ("  O%d becomes living \"%s\"", id, e->item[2].u.string); }
     else if (str_eq (w, "timers")) { if (live (id)) { M[id].hb = 1; M[id].co = 1; } }
     else if (str_eq (w, "fail")) vx_obs ("  scripted error() in O%d", id);
     else if (str_eq (w, "nop")) vx_obs ("  (script target gone, no-op)");
@@ -301,7 +303,7 @@ static void walk (const char *when) {
     if (o->sent) fail_hist ("C08:destructed-object-has-sentences", "%s: destructed /%s still carries command sentences", when, o->name);
     if (IN_ALL (o)) fail_hist ("C08:object-in-both-lists", "%s: /%s is in obj_list and in obj_list_destruct", when, o->name);
   }
-  if (nd != pending_destructed && !(selftest == 2)) fail_hist ("C08:destruct-list-count-differs", "%s: obj_list_destruct holds %d objects, %d were destructed since the last cleanup", when, nd, pending_destructed);
+  if (nd != pending_destructed) fail_hist ("C08:destruct-list-count-differs", "%s: obj_list_destruct holds %d objects, %d were destructed since the last cleanup", when, nd, pending_destructed);
   for (int i = 0; i < NOBJ; i++) if (OB[i] && (OB[i]->flags & O_DESTRUCTED) && M[i].st == 2) {
     int f = 0; for (object_t *o = obj_list_destruct; o; o = o->next_all) if (o == OB[i]) f++;
     if (f != 1) fail_hist ("C08:destructed-object-not-in-destruct-list", "%s: destructed O%d is %d times in obj_list_destruct", when, i, f);
@@ -402,9 +404,9 @@ static void observe (const char *when) {
   for (int name = 1; name <= 2; name++) {
     unsigned cand = 0;
     for (int i = 0; i < NOBJ; i++) if (live (i) && M[i].living && M[i].lname == name) cand |= 1u << i;
-    push_constant_string (name == 1 ? "p" : "q");
+    push_constant_string (name == 1 ? lname1 : lname2);
     long f = lgi ("fl", 1);
-    if (f >= 0 ? !(cand & (1u << f)) : (f == -1 ? cand != 0 : 1)) fail_hist (f >= 0 || f == -2 ? "C08:find_living-finds-wrong-object" : "C08:find_living-misses-living", "%s: find_living(\"%s\") = O%ld, model candidates %x", when, name == 1 ? "p" : "q", f, cand);
+    if (f >= 0 ? !(cand & (1u << f)) : (f == -1 ? cand != 0 : 1)) fail_hist (f >= 0 || f == -2 ? "C08:find_living-finds-wrong-object" : "C08:find_living-misses-living", "%s: find_living(\"%s\") = O%ld, model candidates %x", when, name == 1 ? lname1 : lname2, f, cand);
   }
   push_constant_string ("zz");
   if (lgi ("fl", 1) != -1) fail_hist ("C08:destructed-object-found-as-living", "%s: find_living(\"zz\") finds something: the name was only ever set by objects after they destructed themselves", when);
@@ -422,6 +424,8 @@ static int top_apply (object_t *ob, const char *fn, int nargs, const char *desc)
 
 static void after_step (int failed, const char *desc, int expect_fail) {
   process_log (failed);
+  /* self-test 3 breaks the environment: a destructed object is put back into the name hash behind the driver's back */
+  if (selftest == 3) for (int i = 0; i < NOBJ; i++) if (OB[i] && (OB[i]->flags & O_DESTRUCTED) && M[i].st == 2 && !lookup_object_hash (OB[i]->name)) { enter_object_hash (OB[i]); break; }
   if (nested_restrict && !failed) fail_hist ("C08:model-desync", "%s: expected the nested move_or_destruct restriction to raise an error", desc);
   nested_restrict = 0;
   if (failed && !expect_fail && !scripts_run) fail_hist ("C08:unexpected-error", "%s raised an error although nothing was scripted to fail: %s", desc, hx_last_error);
@@ -613,6 +617,17 @@ int main (int argc, char **argv) {
   if (!LOGGER) { fprintf (stderr, "cannot load /c08/log: %s\n", hx_last_error); return 2; }
   add_ref (LOGGER, "h_c08");
   for (int i = 0; i < NOBJ; i++) M[i].parent = -1;
+  /* two living names that collide in the living hash (same rule as lib/lpc/object.c: whashstr(name, 20) % size) */
+  {
+    int sz = CONFIG_INT (__LIVING_HASH_TABLE_SIZE__), found = 0;
+    for (int a = 0; a < 400 && !found; a++) for (int b = a + 1; b < 400 && !found; b++) {
+      char na[16], nb[16]; snprintf (na, sizeof na, "n%d", a); snprintf (nb, sizeof nb, "n%d", b);
+      if (whashstr (na, 20) % sz == whashstr (nb, 20) % sz) { strcpy (lname1, na); strcpy (lname2, nb); found = 1; }
+    }
+    if (!found) { fprintf (stderr, "no colliding living names found\n"); return 2; }
+    push_constant_string (lname1); push_constant_string (lname2);
+    if (!hx_apply (LOGGER, "set_names", 2)) { fprintf (stderr, "set_names failed: %s\n", hx_last_error); return 2; }
+  }
   for (object_t *o = obj_list; o; o = o->next_all) base_objs++;
   if (ohash > 0 && vw_otable_size () > 4) { fprintf (stderr, "ObjectHashSize not applied (%d)\n", vw_otable_size ()); return 2; }
   return vx_run (argc, argv, body);
